@@ -5,6 +5,18 @@ import os
 VERIF = os.path.dirname(os.path.dirname(os.path.abspath(__file__)))
 
 CHECKS = {
+    "C14": dict(
+        text="Two Coq obligations. (1) From the CURRENT source: translator T2 regenerates the table of every attribute write in the library (assignments, augmented, subscript "
+             "stores, del, setattr; fail-closed on dynamic forms) and Coq re-proves that each one is in a constructor, on an object created in the same function, on a "
+             "helper object of its own, or sets the find_path cache (C14_writes_only_caches). (2) The object as a state machine with an immutable part and two caches "
+             "(inverted copy; BFS ball keyed by the BFS arguments): for ANY operation sequence each operation returns what it returns on a fresh object and the immutable "
+             "part never changes (C14_history_independent). Tie/search: differential histories on the real object - random sequences of 11 kinds of public operations "
+             "(bfs with options, path queries, beam search, random walks, inverted/modified copies, export, find_path, MITM) against a fresh object with the same seed, "
+             "plus a snapshot of definition/central state/encoding/hashing after every operation; interleaved constructions reseed the global RNG.",
+        note="PARTIAL: aliasing of returned tensors, in-place tensor mutation through method calls, and anything a user callback does are outside the model; the differential "
+             "histories are what covers them (exploration). Trusted: Coq kernel, T2, EffectsDefs.effect_ok.",
+        technique="Coq proof over a regenerated effect table + abstract state-machine theorem + differential histories",
+        design="7 (C14)"),
     "C07": dict(
         text="Coq theorems about the model of the three random-walk generators for ALL values of the random draws (oracle arguments): every returned state x[i] is the end of a "
              "walk of exactly y[i] edges from the start state and the output starts with the start state (classic, bfs, nbt with every history depth incl. the default 0); "
